@@ -388,3 +388,18 @@ def decode_paged_value(value: bytes, strict: bool = True) -> t.Dict[str, t.Any]:
     if end != len(value):
         raise BerError("trailing bytes after realSearchControlValue")
     return decode(PagedValue, node, strict)
+
+
+# RFC 4511 Appendix B: the named numbers of the ENUMERATED types (transcribed from the RFC, not from the library)
+RESULT_CODES = {
+    "success": 0, "operationsError": 1, "protocolError": 2, "timeLimitExceeded": 3, "sizeLimitExceeded": 4, "compareFalse": 5,
+    "compareTrue": 6, "authMethodNotSupported": 7, "strongerAuthRequired": 8, "referral": 10, "adminLimitExceeded": 11,
+    "unavailableCriticalExtension": 12, "confidentialityRequired": 13, "saslBindInProgress": 14, "noSuchAttribute": 16,
+    "undefinedAttributeType": 17, "inappropriateMatching": 18, "constraintViolation": 19, "attributeOrValueExists": 20,
+    "invalidAttributeSyntax": 21, "noSuchObject": 32, "aliasProblem": 33, "invalidDNSyntax": 34, "aliasDereferencingProblem": 36,
+    "inappropriateAuthentication": 48, "invalidCredentials": 49, "insufficientAccessRights": 50, "busy": 51, "unavailable": 52,
+    "unwillingToPerform": 53, "loopDetect": 54, "namingViolation": 64, "objectClassViolation": 65, "notAllowedOnNonLeaf": 66,
+    "notAllowedOnRDN": 67, "entryAlreadyExists": 68, "objectClassModsProhibited": 69, "affectsMultipleDSAs": 71, "other": 80,
+}  # fmt: skip
+SEARCH_SCOPE = {"baseObject": 0, "singleLevel": 1, "wholeSubtree": 2}
+DEREF_ALIASES = {"neverDerefAliases": 0, "derefInSearching": 1, "derefFindingBaseObj": 2, "derefAlways": 3}
